@@ -7,6 +7,9 @@ TIMEOUT = 60.0
 SHRINK_LINES = False
 
 
+FRESH_EVERY = 4     # every fourth plan of a worker starts in a new executor process (lazy, once-per-process initialisations)
+
+
 def gen_plan(rng, tier, config, opts):
     lines = ['relic-sim-plan 1', 'engine thrsim', 'config T']
     k = rng.choice([2, 2, 3, 3, 4])
@@ -19,7 +22,9 @@ def gen_plan(rng, tier, config, opts):
         # between threads is overwritten between its write and its use
         k = rng.choice([2, 2, 3])
         items = [rng.choice(['W_PSI', 'W_PSI', 'W_HASH %d' % rng.below(1000), 'W_SSS', 'W_ECIES', 'W_ECDSA', 'RAND', 'RAND', 'RAND',
-                             'W_MAP m%d' % rng.below(1000), 'W_MUL ' + rng.bytes(20).hex()]) for _ in range(rng.randint(2, 6))]
+                             'W_MAP m%d' % rng.below(1000), 'W_MUL ' + rng.bytes(20).hex(), 'W_STR %d' % rng.below(1000)]) for _ in range(rng.randint(2, 6))]
+        if rng.chance(0.3):
+            items.insert(0, 'W_STR %d' % rng.below(1000))      # text conversion first: tables built on first use
         for t in range(k):
             steps = ['RESEED ' + rng.bytes(8).hex(), 'EPSET ' + (curve if curve != 'BN_P256' else 'NIST_P256')] + items + ['CLRERR', 'PROBE 1']
             lines += ['THREAD %d %s' % (t, s) for s in steps]
@@ -35,7 +40,7 @@ def gen_plan(rng, tier, config, opts):
                 kk = rng.bytes(rng.choice([8, 20, 32])).hex()
                 steps.append(rng.choice(['W_MUL ' + kk, 'W_MUL ' + kk, 'W_MULGEN ' + kk, 'W_SIM ' + kk, 'W_PRE ' + kk,
                                          'W_MAP m%d' % rng.below(1000), 'W_FPINV ' + kk, 'W_ECDSA', 'RAND', 'W_FAIL 1', 'GETCODE',
-                                         'W_ECIES', 'W_HASH %d' % rng.below(1000), 'W_SSS', 'W_PSI', 'W_PSI']))
+                                         'W_ECIES', 'W_HASH %d' % rng.below(1000), 'W_SSS', 'W_PSI', 'W_PSI', 'W_STR %d' % rng.below(1000)]))
             steps += ['CLRERR', 'PROBE 1']
         else:
             steps, _, _ = ctxsim.gen_script(rng, maxsel=2, maxwork=6, allow_reinit=rng.chance(0.3))
